@@ -113,7 +113,8 @@ C03(hh, pre, e, post) ==
 StartsDial(e) == (e.e = "Poll" /\ e.res = "DialStart") \/ (e.e = "Bg" /\ e.d # 0)
 C04(hh, pre, e, post) ==
   (IF StartsDial(e) /\ Get(hh.hadIdle, e.r, FALSE) THEN <<V("C04:dial-despite-idle", e.r, e.d)>> ELSE <<>>)
-  \o (IF StartsDial(e) /\ e.r \in 1..NReqO(post) /\ post.req[e.r].h2 /\ Get(hh.inflight, e.r, FALSE)
+  \o (IF /\ StartsDial(e) /\ e.r \in 1..NReqO(post) /\ post.req[e.r].h2
+         /\ \E q \in hh.att \ {e.r} : q \in 1..NReqO(post) /\ SameOrigin(hh, post.req[q].o, post.req[e.r].o)
       THEN <<V("C04:h2-dial-while-attempt-in-flight", e.r, e.d)>> ELSE <<>>)
   \o (IF StartsDial(e) /\ e.r \in 1..NReqO(post) /\ post.req[e.r].h2 /\ Get(hh.openH2, e.r, FALSE)
       THEN <<V("C04:h2-dial-while-open-h2-pooled", e.r, e.d)>> ELSE <<>>)
@@ -151,12 +152,19 @@ C14(hh, pre, e, post) ==
   (IF /\ e.e = "Poll" /\ (e.res = "DialStart" \/ (e.res = "PollPending" /\ Get(hh.dialed, e.r, FALSE)))
       /\ ReuseAsserted(hh) /\ e.r \in 1..NReqO(post) /\ UsableIdle(hh, pre, post.req[e.r].o)
    THEN <<V("C14:pending-while-usable-idle", e.r, 0)>> ELSE <<>>)
+  \o (IF /\ e.e = "WhenReady" /\ IsUsable(pre, e.c) /\ ~pre.conn[e.c].h2 /\ pre.conn[e.c].live > 0
+         /\ LiveWaiter(hh, pre, pre.conn[e.c].o) /\ post.conn[e.c].live = 0
+      THEN <<V("C14:released-connection-not-delivered-to-waiter", 0, e.c)>> ELSE <<>>)
   \o (IF e.e = "Drain" /\ hh.cfg.cap /\ \E d \in hh.aband : post.conn[d].dial = "dropped"
       THEN <<V("C14:abandoned-attempt-dropped-with-cap", 0, CHOOSE d \in hh.aband : post.conn[d].dial = "dropped")>> ELSE <<>>)
-  \o (IF /\ e.e = "Drain" /\ hh.cfg.cap
-         /\ \E d \in hh.aband : /\ post.conn[d].dial = "ok" /\ IsUsable(post, d) /\ post.conn[d].live = 0
-                                /\ IdleLen(hh, post, post.conn[d].o) < hh.cfg.maxIdle
-      THEN <<V("C14:abandoned-attempt-connection-lost", 0, 0)>> ELSE <<>>)
+  \o (IF /\ e.e = "Bg" /\ e.d = 0 /\ hh.cfg.cap
+         \* the background continuation of an abandoned attempt finished in this step: its connection must now be
+         \* held by somebody (the pool, a waiter, or a WhenReady task on its way to the pool) unless there was
+         \* neither room in the idle list nor a live waiter at that moment
+         /\ \E d \in 1..NConnO(pre) : /\ pre.conn[d].by = e.r /\ pre.conn[d].dial \in {"connecting", "handshaking"}
+                                       /\ post.conn[d].dial = "ok" /\ IsUsable(post, d) /\ post.conn[d].live = 0
+                                       /\ (IdleLen(hh, pre, pre.conn[d].o) < hh.cfg.maxIdle \/ LiveWaiter(hh, pre, pre.conn[d].o))
+      THEN <<V("C14:abandoned-attempt-connection-lost", e.r, 0)>> ELSE <<>>)
   \o (IF e.e = "Drain" /\ ~hh.cfg.cap /\ \E d \in hh.aband : post.conn[d].dial # "dropped" \/ post.conn[d].live # 0
       THEN <<V("C14:abandoned-attempt-left-behind-without-cap", 0, 0)>> ELSE <<>>)
 
@@ -200,7 +208,8 @@ Upd(hh, pre, e, post) ==
          IN [hh EXCEPT !.dialed = IF e.res = "DialStart" THEN Put(@, e.r, TRUE, FALSE) ELSE @,
                        !.reserved = IF e.res \in {"Handoff", "PollErr", "Panicked"} THEN Put(@, e.r, 0, 0) ELSE @,
                        !.aband = IF preempted THEN @ \cup ownDial ELSE @,
-                       !.att = IF e.res \in {"PollErr", "Panicked"} THEN @ \ {e.r}
+                       !.att = IF e.res = "DialStart" /\ post.req[e.r].h2 THEN @ \cup {e.r}   \* (a released waiter took the attempt over)
+                               ELSE IF e.res \in {"PollErr", "Panicked"} THEN @ \ {e.r}
                                ELSE IF e.res = "Handoff" THEN (IF hh.cfg.cap /\ (preempted \/ unstarted) THEN @ ELSE @ \ {e.r})
                                ELSE @]
     [] e.e = "Cancel" ->
